@@ -151,7 +151,7 @@ def obs (d : Det α) : List Tok :=
       (if c.twoSided then [T s.t.dec1.ewma.mean, T s.t.dec2.ewma.mean, TO s.t.decCut] else [])
   | .adwin _ s => if s.err then [.s "err:Value"] else
       [.i s.n, .b s.drift, .none, .i s.width, T s.total, T s.variance,
-       .s ("rows=" ++ ",".intercalate (s.rows.map (fun r => toString r.length)))]
+       .s ("rows=" ++ ",".intercalate (s.rows.map (fun r => toString r.length))), .i s.numBuckets, .i s.numMaxBuckets]
   | .kswin _ s => [.i s.n, .b s.drift, .none, .i s.window.length]
   | .stepd _ s => (match s.err with
       | some e => [.s ("err:" ++ e.name)]
